@@ -195,6 +195,37 @@ class StreamRun:
         self.errors = {}
 
 
+def _fresh_impl(stream, case):
+    """Run one case in a fresh single-worker process (retry after a time-out)."""
+    ctx = mp.get_context('fork')
+    try:
+        with ProcessPoolExecutor(max_workers=1, mp_context=ctx) as ex:
+            return ex.submit(_impl_worker, (stream, case)).result(timeout=getattr(stream, 'timeout_s', 120) + 60)
+    except Exception as e:  # noqa
+        return ('exc', 'Timeout', 'retry in a fresh process did not finish: %r' % (e,))
+
+
+def _looks_like_timeout(out, failures, disagreement):
+    if isinstance(out, ImplError) and 'imeout' in str(out.get('error')):
+        return True
+    if any('imeout' in f.kind or 'does-not-terminate' in f.kind for f in failures):
+        return True
+    return bool(disagreement) and 'imeout' in str(disagreement)
+
+
+def _judge(stream, c, o, results):
+    """(disagreement or None/skip-string, [Failure])"""
+    try:
+        d = stream.compare(c, o, results)
+    except Exception as e:
+        d = 'compare raised %r on %s' % (e, [r.raw[:120] for r in results])
+    try:
+        fs = stream.holds(c, o) or []
+    except Exception as e:
+        fs = [Failure('instance-check-crashed', repr(e))]
+    return d, fs
+
+
 def execute_stream(stream, cases, workers):
     run = StreamRun(stream)
     run.cases = cases
@@ -211,26 +242,36 @@ def execute_stream(stream, cases, workers):
         all_ops.extend(ops)
     run.model_ops = len(all_ops)
     results = [Result(l) for l in lean.run_model(all_ops)]
-    for c, o, (a, b) in zip(cases, run.outs, spans):
+    retried = 0
+    for idx, (c, o, (a, b)) in enumerate(zip(cases, run.outs, spans)):
+        d, fs = _judge(stream, c, o, results[a:b])
+        ops_c = all_ops[a:b]
+        if _looks_like_timeout(o, fs, d if not (isinstance(d, str) and d.startswith('skip:')) else None) and retried < 8:
+            # A time-out may be spurious (on this image fork() inside multiprocessing.Pool occasionally stalls in a
+            # library's pre-fork handler under load): re-run the case once in a fresh process before believing it.
+            retried += 1
+            r = _fresh_impl(stream, c)
+            o2 = r[1] if r[0] == 'ok' else ImplError(error=r[1], msg=r[2])
+            try:
+                ops2 = stream.ops(c, o2) or []
+                res2 = [Result(l) for l in lean.run_model(ops2)]
+                d, fs = _judge(stream, c, o2, res2)
+                o, ops_c = o2, ops2
+                run.outs[idx] = o2
+                run.tags['retried-after-timeout'] = run.tags.get('retried-after-timeout', 0) + 1
+            except Exception:
+                pass
         if isinstance(o, ImplError):
             run.errors[o['error']] = run.errors.get(o['error'], 0) + 1
-        try:
-            d = stream.compare(c, o, results[a:b])
-        except Exception as e:
-            d = 'compare raised %r on %s' % (e, [r.raw[:120] for r in results[a:b]])
         if isinstance(d, str) and d.startswith('skip:'):
             run.skipped += 1
         elif d:
-            run.disagreements.append((c, d, all_ops[a:b]))
-        try:
-            fs = stream.holds(c, o) or []
-        except Exception as e:
-            fs = [Failure('instance-check-crashed', repr(e))]
+            run.disagreements.append((c, d, ops_c))
         for f in fs:
             if getattr(f, 'literal', True):
                 run.failures.append((c, f))
             else:
-                run.disagreements.append((c, 'mechanism check %s: %s' % (f.kind, f.detail), all_ops[a:b]))
+                run.disagreements.append((c, 'mechanism check %s: %s' % (f.kind, f.detail), ops_c))
         try:
             for t in stream.tags(c, o):
                 run.tags[t] = run.tags.get(t, 0) + 1
